@@ -460,7 +460,7 @@ def data() -> dict:
               'init_written': shape['written'], 'gate_reserved': shape['gate_reserved'],
               'gate_checks_existing': shape['gate_checks_existing'], 'gate_refs': shape['gate_refs'],
               'field_is_instance': inst_body, 'template_suffix': template_suffix(),
-              'index_top_level_only': loader_shape() in ('top_any', 'loadable'), 'chain_ends_at_any': loader_shape() in ('top_any', 'loadable'),
+              'index_top_level_only': loader_shape() == 'loadable', 'chain_ends_at_any': loader_shape() == 'loadable',
               'index_checks_loadable': loader_shape() == 'loadable',
               'loader_shape': loader_shape()})
     return d
@@ -509,6 +509,8 @@ def render(d: dict) -> str:
     L.append('Definition g_template_suffix : str := %s. (* TEMPLATE_SUFFIX = %r *)\n' % (coq_str(d['template_suffix']), d['template_suffix']))
     L.append('(* which pinned shape type_to_template has: true = only templates directly under a templates directory are indexed *)')
     L.append('Definition g_index_top_level_only : bool := %s.\n' % ('true' if d['index_top_level_only'] else 'false'))
+    L.append('(* true = names the file-system loader lists but cannot load (dangling links) are not indexed (fix 5a15038) *)')
+    L.append('Definition g_index_checks_loadable : bool := %s.\n' % ('true' if d['index_checks_loadable'] else 'false'))
     L.append('(* which pinned shape _type_to_template_internal has: true = the bases of pydsdl.Any are not searched *)')
     L.append('Definition g_chain_ends_at_any : bool := %s.\n' % ('true' if d['chain_ends_at_any'] else 'false'))
     L.append('(* names in a fresh CodeGenEnvironment per target language (before DSDL tests and user additions) *)')
@@ -584,7 +586,7 @@ def loader_shape() -> typing.Optional[str]:
                  (design_notes/C16_dangling_link_fix.patch),
     None       = neither, or the class has other members than the model knows (fail closed)"""
     from . import shape_pin
-    for shape, name in (('top_any', 'c16_loader_toplevel_any'), ('loadable', 'c16_loader_loadable')):
+    for shape, name in (('loadable', 'c16_loader_loadable'),):   # only the post-fix shape (5a15038) is accepted
         try:
             cur = '\n'.join('## %s:%s\n%s' % (p, q, shape_pin.normalized_dump(p, q)) for p, q in PIN_LOADER_TOP) + '\n'
             with open(os.path.join(shape_pin.PINS, name + '.txt'), encoding='utf-8') as f:
